@@ -9,3 +9,119 @@ COQ_TARGETS = ["props/C12.vo"]
 def regen(ctx):
     ctx.tables = {"tri": ctx.translate(tables.tri_tables), "gauss": ctx.translate(tables.gauss_tables),
                   "duffy": ctx.translate(tables.duffy_regions)}
+
+COQ_TARGETS = ["props/C12.vo", "theories/Quad/Corr.vo"]
+TRUSTED = ["correspondence harness harness/c12_impl.py + theories/Quad/Corr.v (exact rational diff inside Coq)",
+           "NumPy float64 arithmetic = IEEE binary64 (model computes in exact rationals; 1 ulp allowed on 0.5*(1+c))"]
+ASSUMPTIONS = ["The perturbation step from Gauss-moment error to a single tolerance on the Duffy rules is not proved",
+               "Sauter-Schwab identity proved for total degree <= 8 only (computation bound)",
+               "Convergence on 1/|x-y| is exercised by the search on the implementation, not proved"]
+
+
+def _q(p):
+    n, d = p
+    return "(%s # %d)" % (n if n >= 0 else "(%d)" % n, d)
+
+
+def _lst(xs):
+    return "[" + "; ".join(xs) + "]"
+
+
+def correspond(ctx):
+    strength = "thorough" if ctx.tier == "thorough" else "quick"
+    res = ctx.run_impl("c12_impl.py", {"strength": strength}, timeout=1200)
+    if res is None:
+        return
+    ctx.impl = res
+    bad_exc = []
+    tri, gau = [], []
+    for k, v in sorted(res["tri"].items(), key=lambda kv: int(kv[0])):
+        if isinstance(v, str):
+            if v != "ValueError":
+                bad_exc.append("triangle_gauss.rule(%s) raised %s" % (k, v))
+            tri.append("((%s)%%Z, None)" % k)
+        else:
+            tri.append("((%s)%%Z, Some %s)" % (k,
+                                          _lst("(%s, %s, %s)" % (_q(p[0]), _q(p[1]), _q(p[2])) for p in v)))
+    for k, v in sorted(res["gauss"].items(), key=lambda kv: int(kv[0])):
+        if isinstance(v, str):
+            if v != "ValueError":
+                bad_exc.append("gauss.rule(%s) raised %s" % (k, v))
+            gau.append("((%s)%%Z, None)" % k)
+        else:
+            gau.append("((%s)%%Z, Some %s)" % (k,
+                                          _lst("(%s, %s)" % (_q(p[0]), _q(p[1])) for p in v)))
+    adjn = {"coincident": 0, "edge_adjacent": 1, "vertex_adjacent": 2}
+    duf, dkeys = [], []
+    for k, v in res["duffy"].items():
+        o, a = k.split(",")
+        dkeys.append(k)
+        duf.append("((%s)%%Z, %d%%nat, %s)" % (o, adjn[a], _lst("(%s, %s, %s, %s, %s)" % tuple(_q(c) for c in p) for p in v)))
+    pts = _lst("(%s, %s)" % (_q(p[0]), _q(p[1])) for p in res["remap_points"])
+    re_, rekeys = [], []
+    for k, v in res["remap_edge"].items():
+        v0, v1 = k.split(",")
+        rekeys.append(k)
+        re_.append("(%s%%nat, %s%%nat, %s)" % (v0, v1, _lst("(%s, %s)" % (_q(p[0]), _q(p[1])) for p in v)))
+    rv = ["(%s%%nat, %s)" % (k, _lst("(%s, %s)" % (_q(p[0]), _q(p[1])) for p in v)) for k, v in res["remap_vertex"].items()]
+    body = "\n".join([
+        "From Coq Require Import QArith ZArith List.", "From BV Require Import Quad.Rules Quad.Corr.",
+        "Import ListNotations.", "Open Scope Q_scope.",
+        "Definition impl_tri : list (Z * option (list (Q * Q * Q))) := %s." % _lst(tri),
+        "Definition impl_gauss : list (Z * option (list (Q * Q))) := %s." % _lst(gau),
+        "Definition impl_duffy : list (Z * nat * list (Q * Q * Q * Q * Q)) := %s." % _lst(duf),
+        "Definition pts : list (Q * Q) := %s." % pts,
+        "Definition impl_re : list (nat * nat * list (Q * Q)) := %s." % _lst(re_),
+        "Definition impl_rv : list (nat * list (Q * Q)) := %s." % _lst(rv),
+        "Eval vm_compute in (failing tri_case_ok impl_tri).",
+        "Eval vm_compute in (failing gauss_case_ok impl_gauss).",
+        "Eval vm_compute in (failing duffy_case_ok impl_duffy).",
+        "Eval vm_compute in (failing (remap_edge_case_ok pts) impl_re).",
+        "Eval vm_compute in (failing (remap_vertex_case_ok pts) impl_rv).", ""])
+    out = ctx.coq_eval("c12cases", body, timeout=900)
+    n_cases = len(tri) + len(gau) + len(duf) + len(re_) + len(rv)
+    ctx.corr["evaluations"] = n_cases
+    ctx.corr["distinct_nontrivial"] = sum(1 for v in res["tri"].values() if not isinstance(v, str)) + \
+        sum(1 for v in res["gauss"].values() if not isinstance(v, str)) + len(duf) + len(re_) + len(rv)
+    ctx.corr["rule"] = ("every rule lookup for orders -2..23 (triangle) and -2..33 (Gauss), the full point lists of the "
+                        "Duffy rules of order 1..3 for the three adjacency types, the 6 edge and 3 vertex remaps on 5 "
+                        "points; non-trivial = the lookup is accepted (returns points) or is a Duffy/remap case")
+    ctx.corr["histogram"] = {"triangle_lookups": len(tri), "gauss_lookups": len(gau), "duffy_point_lists": len(duf),
+                             "duffy_points_compared": sum(len(v) for v in res["duffy"].values()),
+                             "edge_remaps": len(re_), "vertex_remaps": len(rv)}
+    ctx.corr["samples"] = [{"triangle_gauss.rule(1)": res["tri"]["1"]}, {"gauss.rule(2)": res["gauss"]["2"]},
+                           {"duffy.rule(1,'vertex_adjacent')": res["duffy"]["1,vertex_adjacent"]}]
+    for b in bad_exc:
+        ctx.problem("correspondence", b)
+        ctx.corr["disagreements"] += 1
+    if out is None:
+        return
+    import re
+    blocks = re.findall(r'=\s*(\[[^\]]*\])\s*:\s*list nat', out.replace("\n", " "))
+    names = ["triangle lookup", "gauss lookup", "duffy points", "edge remap", "vertex remap"]
+    keysets = [sorted(res["tri"], key=int), sorted(res["gauss"], key=int), dkeys, rekeys, list(res["remap_vertex"])]
+    if len(blocks) != 5:
+        ctx.problem("correspondence", "could not parse model evaluation output", out[-2000:])
+        return
+    for nm, blk, keys in zip(names, blocks, keysets):
+        idx = [int(x) for x in re.findall(r'\d+', blk)]
+        for i in idx:
+            ctx.corr["disagreements"] += 1
+            ctx.problem("correspondence", "model and implementation disagree on %s case %s" % (nm, keys[i]))
+
+
+def search(ctx, strength):
+    res = getattr(ctx, "impl", None)
+    if res is None or (strength == "thorough" and ctx.tier != "thorough"):
+        res = ctx.run_impl("c12_impl.py", {"strength": strength}, timeout=2400)
+    if res is None:
+        return
+    ctx.search_info["evaluations"] = res["search_evals"]
+    ctx.search_info["notes"].append({"worst_errors": res["worst"]})
+    for f in res["failures"]:
+        ctx.failure(f["signature"], f["what"], f["data"])
+
+
+def replay(ctx):
+    regen(ctx)
+    search(ctx, "thorough")
